@@ -90,6 +90,92 @@ pub enum Outcome<T> {
 
 struct BudgetExceeded;
 
+// ---- deterministic interleaving of two caller threads -------------------------------------------
+// The library has no threads of its own, but its callers may have; state it keeps process-wide
+// (a `static` cache) is then shared between them. Two ops run on two OS threads, and the ONLY
+// points at which control passes from one to the other are the draws at the RNG seam (plus op
+// start and end). Who proceeds at each such point is given by an explicit order string, so one
+// order is one exactly repeatable interleaving.
+
+pub struct Gate {
+    m: std::sync::Mutex<GateState>,
+    cv: std::sync::Condvar,
+}
+
+struct GateState {
+    turn: Option<u8>,
+    order: std::collections::VecDeque<u8>,
+    done: [bool; 2],
+    switches: u32,
+}
+
+thread_local! {
+    static GATE: RefCell<Option<(std::sync::Arc<Gate>, u8)>> = RefCell::new(None);
+}
+
+impl Gate {
+    pub fn new(order: &[u8]) -> std::sync::Arc<Gate> {
+        let g = Gate {
+            m: std::sync::Mutex::new(GateState { turn: None, order: order.iter().copied().collect(), done: [false; 2], switches: 0 }),
+            cv: std::sync::Condvar::new(),
+        };
+        {
+            let mut st = g.m.lock().unwrap();
+            let first = Gate::pick(&mut st);
+            st.turn = first;
+        }
+        std::sync::Arc::new(g)
+    }
+    fn pick(st: &mut GateState) -> Option<u8> {
+        loop {
+            match st.order.pop_front() {
+                Some(t) if t < 2 && !st.done[t as usize] => return Some(t),
+                Some(_) => continue,
+                None => return (0..2u8).find(|t| !st.done[*t as usize]),
+            }
+        }
+    }
+    pub fn acquire(&self, me: u8) {
+        let mut st = self.m.lock().unwrap();
+        while st.turn != Some(me) {
+            st = self.cv.wait(st).unwrap();
+        }
+    }
+    fn release(&self, me: u8, finished: bool) {
+        let mut st = self.m.lock().unwrap();
+        if finished {
+            st.done[me as usize] = true;
+        }
+        let next = Gate::pick(&mut st);
+        if next != Some(me) {
+            st.switches += 1;
+        }
+        st.turn = next;
+        self.cv.notify_all();
+    }
+    pub fn finish(&self, me: u8) {
+        self.release(me, true);
+    }
+    pub fn switches(&self) -> u32 {
+        self.m.lock().unwrap().switches
+    }
+}
+
+pub fn gate_install(g: std::sync::Arc<Gate>, me: u8) {
+    GATE.with(|c| *c.borrow_mut() = Some((g, me)));
+}
+pub fn gate_clear() {
+    GATE.with(|c| *c.borrow_mut() = None);
+}
+/// A scheduling point: hand the turn back and wait to be scheduled again.
+fn gate_yield() {
+    let g = GATE.with(|c| c.borrow().clone());
+    if let Some((g, me)) = g {
+        g.release(me, false);
+        g.acquire(me);
+    }
+}
+
 thread_local! {
     static LAST_PANIC: RefCell<String> = RefCell::new(String::new());
     static IN_LIB: std::cell::Cell<bool> = std::cell::Cell::new(false);
@@ -138,6 +224,7 @@ pub fn run_lib<T>(script: &RngScript, f: impl FnOnce() -> T) -> (Outcome<T>, Rng
     }));
     let mk_source = |st: Rc<RefCell<State>>| -> Box<dyn FnMut(&mut [u8; 32])> {
         Box::new(move |buf: &mut [u8; 32]| {
+            gate_yield();
             let mut s = st.borrow_mut();
             if s.log.offered.len() >= DRAW_BUDGET {
                 s.log.exceeded = true;
